@@ -681,6 +681,13 @@ func (i *InMemCollector) Stop() error {
 		worker.Stop()
 	}
 
+	// No worker will ask for a sampler any more: stop the shared dynsamplers.
+	// SamplerFactory.Stop has no error result, so it is not a startstop.Stopper
+	// and the shutdown never called it; their goroutines were left running.
+	if i.SamplerFactory != nil {
+		i.SamplerFactory.Stop()
+	}
+
 	// Now it's safe to close the traces to send channel
 	// No more traces will be sent to it
 	close(i.tracesToSend)
